@@ -1,10 +1,41 @@
 package main
 
 import (
+	"go/token"
+	"go/types"
+
 	"golang.org/x/tools/go/ssa"
 )
 
 // stdIntrinsic2 holds the models added for value codecs, strings, crypto.
 func (in *Interp) stdIntrinsic2(fn *ssa.Function, name string, args []Value) (Value, bool) {
 	return nil, false
+}
+
+func (in *Interp) floatBinop(op token.Token, x, y *Term, t types.Type) Value {
+	in.unsupported("float arithmetic %s", op)
+	return nil
+}
+func (in *Interp) floatConvert(t *Term, from, to types.Type) Value {
+	in.unsupported("float conversion %s -> %s", from, to)
+	return nil
+}
+
+// runeToString: string(r). Exact UTF-8 for scalar values given concretely; ASCII for symbolic.
+func (in *Interp) runeToString(r *Term) Value {
+	if r.IsConst() {
+		return litStr(string(rune(r.Int())))
+	}
+	if !in.branch(And(ICmp("<=", IntC(0), r), ICmp("<", r, IntC(128)))) {
+		in.unsupported("string(rune) of symbolic non-ASCII value")
+	}
+	return &StrV{node: zeroArr(8).Store(IX(0), Int2BV(r, 8)), off: IX(0), len: IX(1)}
+}
+func (in *Interp) stringToRunes(s *StrV) Value {
+	in.unsupported("[]rune(string)")
+	return nil
+}
+func (in *Interp) runesToString(s *SliceV) Value {
+	in.unsupported("string([]rune)")
+	return nil
 }
